@@ -1,6 +1,7 @@
 // ccdrive main loop: one JSON op per stdin line -> "B <i>" marker, then "E <json event>".
 #include "drv.h"
 
+#include <sys/time.h>
 #include <cxxabi.h>
 #include <csignal>
 #include <cstdio>
@@ -122,7 +123,14 @@ int main() {
   if (const char* env = getenv("VERIF_OP_TIMEOUT")) {
     opTimeout = static_cast<unsigned>(atoi(env));
   }
-  signal(SIGALRM, OnAlarm);
+  // the per-op watchdog counts CPU time of this process (ITIMER_PROF), not wall-clock: a loaded machine must not turn a
+  // short operation into a reported hang, while a loop that never ends still burns its budget
+  signal(SIGPROF, OnAlarm);
+  const auto arm = [](unsigned seconds) {
+    struct itimerval tv {};
+    tv.it_value.tv_sec = static_cast<time_t>(seconds);
+    setitimer(ITIMER_PROF, &tv, nullptr);
+  };
 
   std::string line;
   long index = -1;
@@ -135,7 +143,7 @@ int main() {
     std::cout << "B " << index << "\n" << std::flush;
     json out = json::object();
     if (opTimeout != 0) {
-      alarm(opTimeout);
+      arm(opTimeout);
     }
     try {
       const json op = json::parse(line);
@@ -154,7 +162,7 @@ int main() {
       out = json{ {"exc", { {"type", CurrentExceptionType()}, {"what", ""} }} };
     }
     if (opTimeout != 0) {
-      alarm(0);
+      arm(0);
     }
     std::cout << "E " << out.dump(-1, ' ', false, json::error_handler_t::replace) << "\n" << std::flush;
   }
